@@ -96,6 +96,7 @@ class SrcInfo:
     def __init__(self, roots):
         self.enums = dict((k, list(v)) for k, v in BUILTIN_ENUMS.items())   # name -> [variants]
         self.structs = {}   # name -> [field names]
+        self.struct_types = {}   # name -> {field name: type text}
         self.impls = {}     # (relpath, line) -> (trait_or_None, self_type_text)
         self.files = {}
         for root, rel_prefix in roots:
@@ -135,12 +136,15 @@ class SrcInfo:
             cb = _match_brace(src, ob)
             body = src[ob + 1:cb]
             fields = []
+            ftypes = {}
             for part in _split_top_commas(body):
                 part = re.sub(r'#\[[^\]]*\]', '', part).strip()
-                fm = re.match(r'(?:pub(?:\([a-z]+\))?\s+)?([A-Za-z_][A-Za-z0-9_]*)\s*:', part)
+                fm = re.match(r'(?:pub(?:\([a-z]+\))?\s+)?([A-Za-z_][A-Za-z0-9_]*)\s*:\s*(.*)$', part, re.S)
                 if fm:
                     fields.append(fm.group(1))
+                    ftypes[fm.group(1)] = ' '.join(fm.group(2).split())
             self.structs[name] = fields
+            self.struct_types[name] = ftypes
         # impl headers
         line_starts = [0]
         for i, ch in enumerate(src):
